@@ -79,6 +79,30 @@ def run_harness(h, src, build, playback=True):
     return rec
 
 
+def playback(rec, src, build):
+    """replay Kani's counterexample on the real code: append the generated unit test to the harness module of the
+    scratch copy and run it with `cargo kani playback` (a normal test run of the real crate, no model checker)"""
+    test = rec.get("concrete_playback_test")
+    if not test:
+        return None
+    m = re.search(r"fn (kani_concrete_playback_\w+)", test)
+    if not m:
+        return None
+    hf = os.path.join(src, rec["crate"], "src", "verif_kani.rs")
+    txt = open(hf).read()
+    if m.group(1) not in txt:
+        open(hf, "a").write("\n" + test.replace("kani::concrete_playback_run(concrete_vals, ", "kani::concrete_playback_run(concrete_vals, ") + "\n")
+    env = dict(os.environ, CARGO_NET_OFFLINE="true", CARGO_TARGET_DIR=os.path.join(build, "kani-target"))
+    cmd = ["cargo", "kani", "playback", "-Z", "concrete-playback", "-p", rec["crate"], "--", m.group(1)]
+    try:
+        p = subprocess.run(cmd, cwd=src, env=env, capture_output=True, text=True, timeout=1800)
+        out = p.stdout + "\n" + p.stderr
+    except subprocess.TimeoutExpired:
+        return {"cmd": " ".join(cmd), "result": "timeout"}
+    pan = re.findall(r"panicked at [^\n]*\n[^\n]*", out)
+    return {"cmd": " ".join(cmd), "test": m.group(1), "exit": p.returncode, "panic": pan[:2], "failed_as_expected": p.returncode != 0 and ("FAILED" in out or bool(pan)), "output_tail": out[-1200:]}
+
+
 def run_for_property(prop, tier, repo, build, enabled=True):
     hs = [h for h in load() if prop in h.get("props", [])]
     if not hs:
@@ -99,8 +123,9 @@ def run_for_property(prop, tier, repo, build, enabled=True):
     for rec in recs:
         res["harnesses"].append(rec)
         if rec["status"] == "failed" and rec.get("concrete_playback_test") and res["counterexample"] is None:
-            res["counterexample"] = {"harness": rec["name"], "concrete_playback_test": rec["concrete_playback_test"], "replayed": True,
-                                     "how": "the unit test above is Kani's concrete playback of the counterexample; it calls the real function in the scratch copy of the crate"}
+            pb = playback(rec, src, build)
+            res["counterexample"] = {"harness": rec["name"], "concrete_playback_test": rec["concrete_playback_test"], "replayed": bool(pb and pb.get("failed_as_expected")), "playback": pb,
+                                     "how": "Kani's concrete playback unit test was appended to the harness module of the scratch copy of the crate and executed with `cargo kani playback`"}
     return res
 
 
@@ -116,6 +141,8 @@ def counterexample_for(prop, obligation_ids, repo, build):
     for h in hs:
         rec = run_harness(h, src, build)
         if rec["status"] == "failed" and rec.get("concrete_playback_test"):
-            return {"harness": rec["name"], "concrete_playback_test": rec["concrete_playback_test"], "failure": rec.get("failure"), "replayed": True,
-                    "how": "Kani's concrete playback unit test calls the real function in the scratch copy of the crate with the failing input"}
+            pb = playback(rec, src, build)
+            return {"harness": rec["name"], "concrete_playback_test": rec["concrete_playback_test"], "failure": rec.get("failure"),
+                    "replayed": bool(pb and pb.get("failed_as_expected")), "playback": pb,
+                    "how": "Kani's concrete playback unit test was appended to the harness module of the scratch copy of the crate and executed with `cargo kani playback`: it calls the real function with the failing input"}
     return {"replayed": False, "note": "paired Kani harness(es) " + ", ".join(h["name"] for h in hs) + " did not produce a counterexample"}
